@@ -6,27 +6,40 @@
    a reply derived from the request.
 
    case input  [ kind ; logs ; calls ; conns ; panics ; [latency_ms; hooked] ; trace ;
-                 [strict; failed; failed_without_error] ]
+                 [strict; failed; failed_without_error; answering] ]
      kind   0 = Client (Modbus TCP framing), 1 = Client (RTU framing over net.Conn), 2 = SerialClient
      logs   one byte string per connection: everything written to it, in order
-     calls  [g; k; request bytes; status; reply bytes]
+     calls  [g; k; request bytes; status; reply bytes; abandoned]
             status 0 = reply received, 1 = error returned, 2 = the call panicked, 3 = never returned
-     conns  per connection, in the order they were dialled, [overlaps; midclose; closed]: how often the library entered a call on the
+            abandoned 1 = the caller gives the call up: its context ends after 20..90 ms and the
+            request goes to the unit that never answers (so it ends while the caller is queued for
+            the client, or waits for the reply; a serial port's Read then really blocks 100 ms)
+     conns  per connection, in the order they were dialled, [overlaps; midclose; closed; outside]: how often the library entered a call on the
             transport object (Read / Write / Close / Flush / Set*Deadline) while another of its calls
             was inside, and how often Close arrived between the write of a request and the read of
-            its reply; whether the connection is closed after the final Close of the case
+            its reply; whether the connection is closed after the final Close of the case; how
+            often a Read / Write / Flush / Set*Deadline was inside the transport while NO Do call was
+            in progress on the client (an abandoned call left a Read behind on the port)
      panics number of recovered panics (callers and the Close/Connect goroutines)
      latency_ms  slow device: a reply is readable that long after its request (6 callers queue for
             the lock; the wait exceeds the client's write + read time-out, the exchange does not)
      hooked 1 = the client was given a recording ClientHooks object that is NOT goroutine-safe
      trace  its records in the order they were appended: [tag; bytes],
             tag 0 = BeforeWrite, 1 = AfterEachRead (n > 0), 2 = BeforeParse, 9 = overflow
-     strict 1 = nobody closes or reconnects during the case: every call has to be served
+     strict 1 = nobody closes or reconnects during the case: every call that is not abandoned by
+            its caller has to be served
      failed number of FAILING Connect calls made on the connected, shared client by a further
             goroutine (dial fails on demand: plain error / cancelled context / error together with a
             typed-nil conn); failed_without_error = how many of them returned nil
+     answering 1 = the abandoned calls of this case go to a unit that DOES answer (all requests then
+            have one shape).  This is the region of KNOWN FINDING KF-C14-1 (code 160, defect D18):
+            the reply an abandoned call leaves behind is read by the next caller as its own
+            (C14_abandoned_call_stale_reply_refuted).  In that region a case whose only false flags
+            are own / whole is judged 160; any other false flag there is an ordinary violation;
+            a case of the region that passes HOLDS.  Outside the region nothing is excused.
    outcome  ok [ frames on the wire all whole ; each caller got its own reply ; no panic ;
-                 serialised = no overlapping transport calls, no Close inside an exchange ;
+                 serialised = no overlapping transport calls, no Close inside an exchange, no
+                   transport call outside a Do ;
                  hooks_atomic = the trace is a concatenation of per-call blocks
                    [BeforeWrite req; AfterEachRead chunk*; BeforeParse reply], chunks = reply =
                    the reply to req, completed blocks = the successful calls ;
@@ -135,13 +148,14 @@ Definition conc_decode (kind : N) (w : list N) : list (list N) := fst (conc_spli
 Definition conc_leftover (kind : N) (w : list N) : list N := snd (conc_split (List.length w) kind w).
 
 (* ---- reading the case ---- *)
-Record ccall := { cc_g : nat; cc_k : nat; cc_req : list N; cc_ok : bool; cc_bad : bool; cc_reply : list N }.
+Record ccall := { cc_g : nat; cc_k : nat; cc_req : list N; cc_ok : bool; cc_bad : bool; cc_reply : list N;
+                  cc_abandon : bool }.
 
 Definition parse_call (v : val) : option ccall :=
   match v with
-  | VL [VI g; VI k; VB req; VI st; VB rep] =>
+  | VL [VI g; VI k; VB req; VI st; VB rep; VI ab] =>
       Some {| cc_g := Z.to_nat g; cc_k := Z.to_nat k; cc_req := req; cc_ok := Z.eqb st 0;
-              cc_bad := Z.leb 2 st; cc_reply := rep |}
+              cc_bad := Z.leb 2 st; cc_reply := rep; cc_abandon := negb (Z.eqb ab 0) |}
   | _ => None
   end.
 Fixpoint parse_calls (vs : list val) : option (list ccall) :=
@@ -171,9 +185,23 @@ Fixpoint same_frames (a b : list (list N)) : bool :=
   end.
 
 (* ---- the judgement of a raw record (independent of the flags the harness computed) ---- *)
+(* every served request is on the wire, whole, exactly once; what else is on the wire are whole
+   requests of abandoned calls that were not served (the caller gave up after writing), each once *)
+Fixpoint remove_all (fs : list (list N)) (l : list (list N)) : option (list (list N)) :=
+  match fs with
+  | [] => Some l
+  | f :: r => match remove_frame f l with Some l' => remove_all r l' | None => None end
+  end.
 Definition raw_whole (kind : N) (logs : list (list N)) (calls : list ccall) : bool :=
   forallb (fun l => match conc_leftover kind l with [] => true | _ => false end) logs &&
-  same_frames (flat_map (conc_decode kind) logs) (map cc_req (filter cc_ok calls)).
+  match remove_all (map cc_req (filter cc_ok calls)) (flat_map (conc_decode kind) logs) with
+  | Some extra =>
+      match remove_all extra (map cc_req (filter (fun c => cc_abandon c && negb (cc_ok c)) calls)) with
+      | Some _ => true
+      | None => false
+      end
+  | None => false
+  end.
 Definition raw_own (kind : N) (calls : list ccall) : bool :=
   forallb (fun c => negb (cc_ok c) || list_eqb (cc_reply c) (conc_reply kind (cc_req c))) calls.
 
@@ -181,7 +209,7 @@ Definition raw_own (kind : N) (calls : list ccall) : bool :=
 Fixpoint raw_serialised (conns : list val) : bool :=
   match conns with
   | [] => true
-  | VL [VI a; VI b; VI _] :: r => Z.eqb a 0 && Z.eqb b 0 && raw_serialised r
+  | VL [VI a; VI b; VI _; VI d] :: r => Z.eqb a 0 && Z.eqb b 0 && Z.eqb d 0 && raw_serialised r
   | _ => false
   end.
 Definition raw_no_panic (panics : Z) (calls : list ccall) : bool :=
@@ -191,11 +219,12 @@ Definition raw_no_panic (panics : Z) (calls : list ccall) : bool :=
 Fixpoint last_closed (conns : list val) : bool :=
   match conns with
   | [] => false
-  | [VL [VI _; VI _; VI c]] => negb (Z.eqb c 0)
+  | [VL [VI _; VI _; VI c; VI _]] => negb (Z.eqb c 0)
   | _ :: r => last_closed r
   end.
 Definition raw_connect (conns : list val) (strict noerr : Z) (calls : list ccall) : bool :=
-  last_closed conns && Z.eqb noerr 0 && (Z.eqb strict 0 || forallb cc_ok calls).
+  last_closed conns && Z.eqb noerr 0 &&
+  (Z.eqb strict 0 || forallb (fun c => cc_ok c || cc_abandon c) calls).
 
 (* ---- the hook trace ---- *)
 Fixpoint parse_trace (vs : list val) : option (list (Z * list N)) :=
@@ -238,10 +267,23 @@ Definition raw_hooks (kind : N) (hooked : Z) (trace : list val) (calls : list cc
 (* ---- model side ---- *)
 Fixpoint nat_max (l : list nat) : nat := match l with [] => O | x :: r => Nat.max x (nat_max r) end.
 
-Definition conc_reqs (oks : list ccall) (g : nat) : list call :=
-  map (fun c => CDo (cc_req c)) (filter (fun c => Nat.eqb (cc_g c) g) oks).
-Definition owner_of (oks : list ccall) (f : list N) : option nat :=
-  match filter (fun c => list_eqb (cc_req c) f) oks with c :: _ => Some (cc_g c) | [] => None end.
+(* the unit that is switched off: the transport receives its requests and never answers them *)
+Definition conc_silent (kind : N) (f : list N) : bool :=
+  if kind =? 0 then match nth_error f 6 with Some u => u =? 99 | None => false end
+  else match f with u :: _ => u =? 99 | [] => false end.
+(* what the transport answers, in arrival order *)
+Definition conc_answered (kind : N) (w : list N) : list (list N) :=
+  filter (fun f => negb (conc_silent kind f)) (conc_decode kind w).
+
+(* the calls that take part in the model run: served ones perform an exchange, abandoned ones whose
+   frame is on the wire write it and leave without reading (CAb) *)
+Definition conc_call_of (c : ccall) : call := if cc_ok c then CDo (cc_req c) else CAb (cc_req c).
+Definition call_steps (c : ccall) : nat :=
+  if cc_ok c then (List.length (cc_req c) + 3)%nat else (List.length (cc_req c) + 2)%nat.
+Definition conc_reqs (part : list ccall) (g : nat) : list call :=
+  map conc_call_of (filter (fun c => Nat.eqb (cc_g c) g) part).
+Definition owner_of (part : list ccall) (f : list N) : option ccall :=
+  match filter (fun c => list_eqb (cc_req c) f) part with c :: _ => Some c | [] => None end.
 
 (* one model run under a schedule, observed: the final state; whether every step was made by the
    holder (acquire: while the mutex was free) -- always true by C14_steps_by_holder, computed so that
@@ -283,56 +325,79 @@ Fixpoint interleave (a b : list (list nat)) : list nat :=
 
 Definition run_conc (args : list val) : val :=
   match args with
-  | [VI kind; VL logs; VL calls; VL _; VI _; VL _; VL _; VL [VI _; VI failed; VI _]] =>
+  | [VI kind; VL logs; VL calls; VL _; VI _; VL [VI _; VI hooked]; VL _; VL [VI _; VI failed; VI _; VI _]] =>
       match parse_logs logs, parse_calls calls with
       | Some ls, Some cs =>
           let kd := Z.to_N kind in
-          let oks := filter cc_ok cs in
           let dec := conc_decode kd in
           let order := flat_map dec ls in
+          let oks := filter cc_ok cs in
+          let part := filter (fun c => cc_ok c ||
+                                       (cc_abandon c && existsb (list_eqb (cc_req c)) order)) cs in
           (* the recorded schedule: in wire order, the owner of each frame performs a whole call *)
-          let groups := map (fun f => match owner_of oks f with
-                                      | Some g => repeat g (List.length f + 3)
+          let groups := map (fun f => match owner_of part f with
+                                      | Some c => repeat (cc_g c) (call_steps c)
                                       | None => [] end) order in
           (* then whoever has calls left finishes them, caller after caller *)
-          let ng := S (nat_max (map cc_g oks)) in
-          let tail := flat_map (fun g => flat_map (fun c => repeat g (List.length (cc_req c) + 3))
-                                                   (filter (fun c => Nat.eqb (cc_g c) g) oks)) (seq 0 ng) in
-          (* the failing Connect calls: control calls of one more caller, scheduled first in turn with
-             the recorded exchanges (where exactly does not matter: C14_every_caller_gets_own_reply) *)
-          let ctl := S (nat_max (map cc_g oks)) in
+          let ng := S (nat_max (map cc_g part)) in
+          let tail := flat_map (fun g => flat_map (fun c => repeat g (call_steps c))
+                                                   (filter (fun c => Nat.eqb (cc_g c) g) part)) (seq 0 ng) in
+          (* the failing Connect calls: control calls of one more caller, in turn with the recorded
+             exchanges (where exactly does not matter: C14_every_caller_gets_own_reply) *)
+          let ctl := ng in
           let nfail := Z.to_nat failed in
-          let reqs := fun g => if Nat.eqb g ctl then repeat CCtl nfail else conc_reqs oks g in
+          let reqs := fun g => if Nat.eqb g ctl then repeat CCtl nfail else conc_reqs part g in
           let sched := interleave (repeat [ctl; ctl; ctl] nfail) groups in
-          let '(s, ser, ht) := run_observed (conc_reply kd) dec (sched ++ tail) (cinit reqs) in
+          let '(s, ser, ht) :=
+            run_observed (conc_reply kd) (conc_answered kd) (sched ++ tail) (cinit reqs) in
           let all_results := flat_map (fun g => results (callers s g)) (seq 0 ng) in
           let whole := match c_owner s with None => true | Some _ => false end &&
                        match conc_leftover kd (wire s) with [] => true | _ => false end &&
-                       same_frames (dec (wire s)) (map cc_req oks) in
+                       same_frames (dec (wire s)) (map cc_req part) in
+          (* every served caller got the reply to its own request: by C14_every_caller_gets_own_reply
+             true whenever no abandoned call of the run is answered; false in the witness of
+             C14_abandoned_call_stale_reply_refuted (known finding KF-C14-1) *)
           let own := Nat.eqb (List.length all_results) (List.length oks) &&
                      forallb (fun x => match snd x with
                                        | Some r => list_eqb r (conc_reply kd (fst x))
                                        | None => false end) all_results in
-          let hooks := blocks_ok (S (List.length ht)) kd ht (map cc_req oks) in
-          let connect := match pending (callers s ctl) with [] => true | _ => false end && own in
+          let hooks := Z.eqb hooked 0 || blocks_ok (S (List.length ht)) kd ht (map cc_req oks) in
+          let connect := forallb (fun g => match pending (callers s g) with [] => true | _ => false end)
+                                 (seq 0 (S ctl)) in
           v_ok [vbool whole; vbool own; vbool true; vbool ser; vbool hooks; vbool connect]
       | _, _ => v_bad
       end
   | _ => v_bad
   end.
 
+(* the region of known finding KF-C14-1 (code 160, defect D18), decidable from the case input: the
+   case says that abandoned calls go to a unit that answers, and it has such a call *)
+Definition KF_C14_1 : N := 160.
+Definition in_region_160 (answering : Z) (calls : list ccall) : bool :=
+  negb (Z.eqb answering 0) && existsb cc_abandon calls.
+(* in the region only the flags own / whole may be false (a later caller consumed the stale reply) *)
+Definition others_true (o : val) : bool :=
+  match o with
+  | VL [VI 0%Z; VI _; VI _; VI np; VI ser; VI hk; VI ca] =>
+      negb (Z.eqb np 0) && negb (Z.eqb ser 0) && negb (Z.eqb hk 0) && negb (Z.eqb ca 0)
+  | _ => false
+  end.
+
 Definition verdict_conc (p : N) (args : list val) (o : val) : N :=
   if p =? 14 then
     match args with
     | [VI kind; VL logs; VL calls; VL conns; VI panics; VL [VI _; VI hooked]; VL trace;
-       VL [VI strict; VI _; VI noerr]] =>
+       VL [VI strict; VI _; VI noerr; VI answering]] =>
         match parse_logs logs, parse_calls calls with
         | Some ls, Some cs =>
             let kd := Z.to_N kind in
+            let rest_ok := raw_no_panic panics cs && raw_serialised conns &&
+                           raw_hooks kd hooked trace cs && raw_connect conns strict noerr cs in
             if val_eqb o (v_ok [vbool true; vbool true; vbool true; vbool true; vbool true; vbool true]) &&
-               raw_whole kd ls cs && raw_own kd cs && raw_no_panic panics cs && raw_serialised conns &&
-               raw_hooks kd hooked trace cs && raw_connect conns strict noerr cs
-            then HOLDS else VIOLATES
+               raw_whole kd ls cs && raw_own kd cs && rest_ok
+            then HOLDS
+            else if in_region_160 answering cs && others_true o && rest_ok then KF_C14_1
+            else VIOLATES
         | _, _ => VIOLATES
         end
     | _ => VIOLATES
